@@ -2,4 +2,7 @@ pub mod common;
 pub mod c01;
 pub mod c02;
 pub mod c03;
+pub mod c04;
+pub mod c05;
+pub mod c06;
 pub mod replay;
